@@ -57,6 +57,8 @@ StartRun ==
         /\ spSeen' = {}
         /\ kfFw' = {}
         /\ kfHard' = [n \in 1..Len(p.nodes) |-> ""]
+        /\ histIn' = <<>>
+        /\ crashed' = FALSE
         /\ viol' = IF Acyclic(p) THEN viol ELSE Append(viol, V(l, "harness_cyclic_program", 0, 0, 0))
         /\ stats' = stats
     /\ Consume
@@ -64,7 +66,7 @@ StartRun ==
 EndRun ==
     /\ IsEvent("reset")
     /\ viol' = IF running # {} THEN Append(viol, V(l, "executor_still_running_at_end", 0, 0, 0)) ELSE viol
-    /\ UNCHANGED <<prog, sessVars, world, rdrVars, runVars, kfVars, stats>>
+    /\ UNCHANGED <<prog, sessVars, world, rdrVars, runVars, kfVars, crVars, stats>>
     /\ Consume
 
 TBegin == IsEvent("begin") /\ Begin(l) /\ Consume
@@ -85,14 +87,18 @@ TExec ==
        ELSE ExecNormal(l, Ev.n, Ev.reads, Ev.out)
     /\ Consume
 TRestart == IsEvent("restart") /\ Restart(l) /\ Consume
+TCrash == IsEvent("crash") /\ Crash(l) /\ Consume
+TRecovered == IsEvent("recovered") /\ Recovered(l, Ev.inputs) /\ Consume
+TCrashPanic == IsEvent("crash_panic") /\ CrashPanic(l) /\ Consume
 
 Known == {"prog", "reset", "begin", "set", "world", "refresh_start", "refresh",
-          "commit", "tracked", "drop", "query", "enter", "read", "exec", "restart"}
+          "commit", "tracked", "drop", "query", "enter", "read", "exec", "restart",
+          "crash", "recovered", "crash_panic"}
 
 TUnknown ==
     /\ l <= Len(Rec) /\ Ev.e \notin Known
     /\ viol' = Append(viol, V(l, "harness_unknown_event", 0, 0, 0))
-    /\ UNCHANGED <<prog, sessVars, world, rdrVars, runVars, kfVars, stats>>
+    /\ UNCHANGED <<prog, sessVars, world, rdrVars, runVars, kfVars, crVars, stats>>
     /\ Consume
 
 Finish ==
@@ -106,6 +112,7 @@ Finish ==
 TraceNext ==
     \/ StartRun \/ EndRun \/ TBegin \/ TSet \/ TWorld \/ TRefreshStart \/ TRefresh
     \/ TCommit \/ TTracked \/ TDrop \/ TQuery \/ TEnter \/ TRead \/ TExec \/ TRestart
+    \/ TCrash \/ TRecovered \/ TCrashPanic
     \/ TUnknown \/ Finish
 
 TraceSpec == TraceInit /\ [][TraceNext]_traceVars
